@@ -1140,6 +1140,7 @@ decl(struct scope *s, struct func *f)
 				s = funcscope;
 				f = mkfunc(d, name, t, s);
 				stmt(f, s);
+				funcchecklabels(f);
 				if (d->u.func.isnoreturn)
 					funchlt(f);
 				if (!d->u.func.inlinedefn)
